@@ -13,6 +13,11 @@
 (*      10^ten * mu0^mu (1 +- r quanta)                                    *)
 (*  [ev |-> "rel", name, a, b]  two quantised observations of the real     *)
 (*      code that the named relation requires to agree within tol          *)
+(*  [ev |-> "loopq", regime, rexp, nonfinite, a, b]  the closed-form loop   *)
+(*      potential (a) and the harness' quadrature of mu0 I/4pi \oint dl/|r-r'| *)
+(*      (b) at the points of one regime of one loop, component by          *)
+(*      component, quantised to 1e-9 of each point's scale; nonfinite =    *)
+(*      number of NaN / inf components the real code returned              *)
 (* The state carries the instance / units of the event, so the relations   *)
 (* of FieldKernels are evaluated as invariants on what was observed.       *)
 (***************************************************************************)
@@ -70,8 +75,15 @@ RelEvent ==
   /\ Len(Ev.a) > 0 /\ Related(Ev.a, Ev.b, T.tol)
   /\ UNCHANGED <<mode, el, co, fu, fv, fw>>
 
+\* the clause "closed form = quadrature" (FieldKernels!LoopMatchesQuadrature): finite, zero reference on the axis, within tol
+LoopEvent ==
+  /\ Ev.ev = "loopq"
+  /\ Ev.regime \in LoopRegimes /\ Ev.rexp \in LoopRexp(Ev.regime)
+  /\ LoopMatchesQuadrature(Ev.regime, Ev.a, Ev.b, Ev.nonfinite, T.tol)
+  /\ UNCHANGED <<mode, el, co, fu, fv, fw>>
+
 TNext == /\ l <= Len(T.ev)
-         /\ (FieldEvent \/ ConvEvent \/ RelEvent)
+         /\ (FieldEvent \/ ConvEvent \/ RelEvent \/ LoopEvent)
          /\ l' = l + 1 /\ UNCHANGED tid
 TSpec == TInit /\ [][TNext]_tvars
 
